@@ -257,13 +257,26 @@ def run(prop_id: str, tier: str, seed: int) -> vlib.Outcome:
     if not shutil.which("cargo-kani"):
         out.inconclusive.append("cargo-kani is not on PATH")
         return out
-    if not build_driver(out):
-        return out
-    units = plan(tier, seed, out)
-    if not units:
-        return out
-    t0 = time.time()
-    run_units(units, prop_id, tier, out)
+    # concurrent `check C05` / `check C06` / `check C07` share the generated crates, the worker slot and the result cache:
+    # they are serialised here (the later ones then find their harness results in the cache)
+    import fcntl
+    lock = open(os.path.join(WORK, "lock_" + TAG), "w")
+    fcntl.flock(lock, fcntl.LOCK_EX)
+    try:
+        if not build_driver(out):
+            return out
+        units = plan(tier, seed, out)
+        if not units:
+            return out
+        t0 = time.time()
+        run_units(units, prop_id, tier, out)
+        return _report(prop_id, tier, units, out)
+    finally:
+        fcntl.flock(lock, fcntl.LOCK_UN)
+        lock.close()
+
+
+def _report(prop_id, tier, units, out):
     b = corpus.bounds(tier)
     assumptions, stubs = set(), set(assemble.STUB_DOC)
     replayed = {}
